@@ -39,6 +39,17 @@ one received frame or a chain of received frames of one PGN, source and sequence
 theorem C07_chain_bound (f0 : Frame) (w : List Frame) (h : IsChain f0 w) : w.length ≤ 32 :=
   (N2k.C02.C02_one_sequence_id f0 w h).1
 
+/-- **C07_tp_bounded_delivery.** For EVERY history of steps of the transport-protocol receiver (any TP.CM / TP.DT / other
+frame handled or queued, polls, the clock set to any value, application sends, own-address changes), from the start state
+(all receive slots free), every message handed to the application because of a transfer has at most 223 bytes and
+exactly as many data bytes as its length says (restated from C10; the full statement there also says whose bytes they are). -/
+theorem C07_tp_bounded_delivery (n : N2k.TP.Node) (hs : ∀ a ∈ n.slots, a.free = true) (ho : n.out = [])
+    (steps : List N2k.TP.RxStep) :
+    ∀ d ∈ (steps.foldl N2k.TP.rxStep (n, [])).1.out, d.tp = true → d.len ≤ 223 ∧ d.data.length = d.len := by
+  intro d hd ht
+  have h := (N2k.C10.C10_receiver_safe_all_histories n [] (N2k.C10.C10_receiver_inv_init n hs ho) steps).2 d hd ht
+  exact ⟨h.1, h.2.1⟩
+
 /-- **C07_devlist_no_fault.** For EVERY history of messages handed to the optional device list (claims with NAME 0 or
 all-ones, takeovers, product / configuration / PGN-list messages of any size in any order, repeated with other
 sizes) no handler run returns a Fault: no use after free, no double free, no null dereference, no write outside
